@@ -15,17 +15,19 @@ WALKS = (("DisjointUnion", "random_sample_sub_objects"), ("CartesianProduct", "r
 
 def _draw(f: ast.AST) -> Optional[Tuple[str, str, str, ast.AST]]:
     """(variable, lo, hi, stmt) of the integer draw; hi/lo as normalised text."""
+    from ..core.pattern import assign_value
     for n in walk_local(f):
-        if isinstance(n, ast.Assign) and len(n.targets) == 1 and isinstance(n.targets[0], ast.Name) and isinstance(n.value, ast.Call):
-            fn = norm(n.value.func)
-            a = n.value.args
+        tgt, val = assign_value(n)
+        if isinstance(tgt, ast.Name) and isinstance(val, ast.Call):
+            fn = norm(val.func)
+            a = val.args
             if fn in ("randint", "random.randint") and len(a) == 2:
-                return n.targets[0].id, norm(a[0]), norm(a[1]), n
+                return tgt.id, norm(a[0]), norm(a[1]), n
             if fn in ("randrange", "random.randrange"):
                 if len(a) == 1:
-                    return n.targets[0].id, "0", f"{norm(a[0])} - 1", n
+                    return tgt.id, "0", f"{norm(a[0])} - 1", n
                 if len(a) == 2:
-                    return n.targets[0].id, norm(a[0]), f"{norm(a[1])} - 1", n
+                    return tgt.id, norm(a[0]), f"{norm(a[1])} - 1", n
     return None
 
 
@@ -78,8 +80,9 @@ def u1_u2_walks(ctx) -> None:
             continue
         acc, augs, branch = sel
         cmpn = _cmp_normal(branch.test, draw, acc)
-        init = [n for n in walk_local(f) if isinstance(n, ast.Assign) and norm(n.targets[0]) == acc]
-        init0 = bool(init) and all(norm(n.value) == "0" for n in init) and all(not C.enclosing_loops(f, n) for n in init)
+        from ..core.pattern import assign_value as _av
+        init = [n for n in walk_local(f) if _av(n)[0] is not None and norm(_av(n)[0]) == acc and _av(n)[1] is not None]
+        init0 = bool(init) and all(norm(_av(n)[1]) == "0" for n in init) and all(not C.enclosing_loops(f, n) for n in init)
         ok_pair = (lo == "1" and hi == count_p and cmpn == "<=") or (lo == "0" and hi in (f"{count_p} - 1",) and cmpn == "<")
         if ok_pair and init0:
             ctx.ok("U1", f"{m.qualname}: draw in [{lo}, {hi}] compared `draw {cmpn} total`, total starts at 0: branch j gets exactly w_j of the {count_p} values")
@@ -162,7 +165,8 @@ def _weights_and_samplers(ctx, m, f, loop, aug, branch, cname) -> None:
             ctx.violation("U2", aug, "product walk: the weight added must be the product computed for this composition")
             return
         wname = w.id
-        inits = [n for n in loop.body if isinstance(n, ast.Assign) and norm(n.targets[0]) == wname and norm(n.value) == "1"]
+        from ..core.pattern import assign_value as _av2
+        inits = [n for n in loop.body if _av2(n)[0] is not None and norm(_av2(n)[0]) == wname and _av2(n)[1] is not None and norm(_av2(n)[1]) == "1"]
         muls = [n for n in walk_local(loop) if isinstance(n, ast.AugAssign) and isinstance(n.op, ast.Mult) and norm(n.target) == wname]
         okp = bool(inits) and len(muls) == 1
         inner = None
@@ -197,9 +201,9 @@ def _weights_and_samplers(ctx, m, f, loop, aug, branch, cname) -> None:
                 oks = isinstance(c, ast.Call) and norm(c.func) == s and _kw(c) == {"n": f"{ep2}.pop('n')", "**": ep2} and same_comp
         r1 = None
         for n in loop.body:
-            if isinstance(n, ast.Assign) and norm(n.targets[0]) == src:
+            if _av2(n)[0] is not None and norm(_av2(n)[0]) == src and _av2(n)[1] is not None:
                 r1 = n
-        okc = r1 is not None and norm(r1.value) == f"self.get_extra_parameters({comp})"
+        okc = r1 is not None and norm(_av2(r1)[1]) == f"self.get_extra_parameters({comp})"
         if oks and okc:
             ctx.ok("U2", "product walk: the children are sampled at the very composition whose weight selected the branch (parameters re-translated from it)")
         else:
